@@ -14,6 +14,7 @@ The theorems are about the process models of `FunModel/Pipe.lean` (FanOut(n), Fa
 table there says which construct instantiates which model with which parameters) and quantify over
 *every* schedule (`Reachable` = any action list from the initial state), every input, every worker
 count, every buffer capacity and every configuration of the model. "Nothing aborts the run" is
+`c.invalid = false` (the option set was accepted: a rejected one closes the output at construction) and
 `envStopped = false` (no environment `close` / `cancel` action was taken); `Reachable c input 0 0`
 (no close/cancel budget) is the special case in which none can be taken.
 
@@ -40,20 +41,20 @@ theorem fanout_no_invention {c : FanOut.Cfg} {input : List Nat} {k1 k2 : Nat} {s
 
 /-- `terminal_multiset_eq`: a failure-free run that has ended delivered exactly the input multiset -/
 theorem fanout_terminal_multiset_eq {c : FanOut.Cfg} {input : List Nat} {k1 k2 : Nat} {s : FanOut.St}
-    (hwf : c.wf) (h : FanOut.Reachable c input k1 k2 s) (hclean : s.envStopped = false)
+    (hwf : c.wf) (hv : c.invalid = false) (h : FanOut.Reachable c input k1 k2 s) (hclean : s.envStopped = false)
     (ht : s.terminal c = true) : (s.got ++ s.seen).Perm input := by
   have hg := FanOut.reachable_good h
-  obtain ⟨t1, t2, t3, t4, t5, t6⟩ := FanOut.terminal_items hg hwf hclean ht
+  obtain ⟨t1, t2, t3, t4, t5, t6⟩ := FanOut.terminal_items hg hwf hv hclean ht
   have := fanout_conservation h
   simpa [t1, t2, t3, t4, t5, t6] using this
 
 /-- the same with no close/cancel budget: every terminal state of an exhaust run -/
 theorem fanout_exhaust_multiset_eq {c : FanOut.Cfg} {input : List Nat} {s : FanOut.St}
-    (hwf : c.wf) (h : FanOut.Reachable c input 0 0 s) (ht : s.terminal c = true) :
+    (hwf : c.wf) (hv : c.invalid = false) (h : FanOut.Reachable c input 0 0 s) (ht : s.terminal c = true) :
     (s.got ++ s.seen).Perm input := by
   obtain ⟨as, hr⟩ := h
   have := FanOut.run_nostop as (s := FanOut.init c input 0 0) (by simp [FanOut.init]) hr
-  exact fanout_terminal_multiset_eq hwf ⟨as, hr⟩ this.1 ht
+  exact fanout_terminal_multiset_eq hwf hv ⟨as, hr⟩ this.1 ht
 
 /-- `single_worker_order`: with one worker the input order is kept at every moment of **every** run
     (also after Close / cancellation): delivered, then buffered, then held by the worker, then given up
@@ -62,8 +63,8 @@ theorem fanout_exhaust_multiset_eq {c : FanOut.Cfg} {input : List Nat} {s : FanO
 theorem fanout_single_worker_order {c : FanOut.Cfg} {input : List Nat} {k1 k2 : Nat} {s : FanOut.St}
     (h : FanOut.Reachable c input k1 k2 s) (hn : c.n = 1) :
     s.got ++ s.seen ++ s.out ++ s.hold ++ s.droppedW ++ s.rd.held ++ s.droppedR ++ s.src = input ∧
-    (s.envStopped = false → s.droppedW = [] ∧ s.droppedR = []) :=
-  ⟨((FanOut.reachable_good h).ord1 hn).order, fun hc => ((FanOut.reachable_good h).clean hc).dropped⟩
+    (c.invalid = false → s.envStopped = false → s.droppedW = [] ∧ s.droppedR = []) :=
+  ⟨((FanOut.reachable_good h).ord1 hn).order, fun hv hc => ((FanOut.reachable_good h).clean hv hc).dropped⟩
 
 /-- `setup_once`: however many outputs are advanced, at most one reader goroutine is ever started, and
     exactly one once any output has been advanced -/
@@ -87,11 +88,11 @@ theorem fanin_no_invention {c : FanIn.Cfg} {privs : List (List Nat)} {shared : L
   omega
 
 theorem fanin_terminal_multiset_eq {c : FanIn.Cfg} {privs : List (List Nat)} {shared : List Nat} {k1 k2 : Nat}
-    {s : FanIn.St} (hn : 0 < privs.length) (h : FanIn.Reachable c privs shared k1 k2 s)
+    {s : FanIn.St} (hn : 0 < privs.length) (hv : c.invalid = false) (h : FanIn.Reachable c privs shared k1 k2 s)
     (hclean : s.envStopped = false) (ht : s.terminal = true) : s.got.Perm (privs.flatten ++ shared) := by
   have hg := FanIn.reachable_good h
   have hlen : s.prods.length = privs.length := FanIn.reachable_prods_length h
-  obtain ⟨t1, t2, t3, t4, t5⟩ := FanIn.terminal_items hg (by omega) hclean ht
+  obtain ⟨t1, t2, t3, t4, t5⟩ := FanIn.terminal_items hg (by omega) hv hclean ht
   have := fanin_conservation h
   simpa [t1, t2, t3, t4, t5] using this
 
@@ -100,11 +101,11 @@ theorem fanin_terminal_multiset_eq {c : FanIn.Cfg} {privs : List (List Nat)} {sh
 theorem fanin_single_producer_order {c : FanIn.Cfg} {l shared : List Nat} {k1 k2 : Nat} {s : FanIn.St}
     (h : FanIn.Reachable c [l] shared k1 k2 s) :
     s.got ++ s.pipe ++ s.prods.flatMap (fun p => p.held.toList) ++ s.dropped ++ s.prods.flatMap (·.src) ++ s.shared
-      = l ++ shared ∧ (s.envStopped = false → s.dropped = []) := by
+      = l ++ shared ∧ (c.invalid = false → s.envStopped = false → s.dropped = []) := by
   have hg := FanIn.reachable_good h
   have hlen : s.prods.length = 1 := by simpa using FanIn.reachable_prods_length h
   have := (hg.order1 hlen).1
-  exact ⟨by simpa [FanIn.inputOf] using this, fun hc => (hg.clean hc).dropped⟩
+  exact ⟨by simpa [FanIn.inputOf] using this, fun hv hc => (hg.clean hv hc).dropped⟩
 
 /-! ## Feeder: Buffer, Chain, MergeSlices, MergeSliceIterators, BufferedChannel, dt.Map / adt.Map iterators -/
 
@@ -153,7 +154,7 @@ example :
 /-- MergeIterators of [1, 3] and [2]: complete failure-free schedule -/
 example :
     let c : FanIn.Cfg := { cap := 0, srcChecksCtx := true, closerCtx := true }
-    ∃ s, FanIn.run c (FanIn.init [[1, 3], [2]] [] 0 0)
+    ∃ s, FanIn.run c (FanIn.init c [[1, 3], [2]] [] 0 0)
       [.cStart, .pRead 1, .pRead 0, .pHandoff 1, .cStart, .pHandoff 0, .pRead 0, .pEof 1, .cStart, .pHandoff 0, .pEof 0,
        .kCancel, .kClose, .cStart, .cEof] = some s ∧ s.terminal = true ∧ s.got = [2, 1, 3] := by
   refine ⟨_, rfl, ?_, ?_⟩ <;> decide
